@@ -286,6 +286,22 @@ def check_sorts_desc(P, R, ep):
                 else:
                     R.violate("b", "levels-ascending", "execute_parallel sorts the salience levels ascending and never reverses them", ep, c.line)
                     return
+    if not ok:
+        # an ordered map walked back to front: `for (salience, rules) in groups.iter().rev()` with groups: BTreeMap<i32, _>
+        lvl_calls = [c for c in ep.calls() if c.bb in ep.normal_blocks() and c.resolved and c.resolved.startswith(PE + "::execute_rules_")]
+        for lp in ep.loops():
+            if not any(c.bb in lp["body"] for c in lvl_calls):
+                continue
+            it = A.loop_driver(ep, lp).get("iter_sym")
+            names = [x[1] for x in walk(it) if x[0] == "call"] if it is not None else []
+            if any("BTreeMap" in n_ and n_.rsplit("::", 1)[1] in ("iter", "into_iter", "keys", "values", "iter_mut") for n_ in names) \
+                    or any("btree_map::" in n_.lower() or "btree::map" in n_.lower() for n_ in names):
+                revs = sum(1 for n_ in names if n_.endswith("::rev"))
+                if revs % 2 == 1 and not A.truncating_adapters(it):
+                    ok = True
+                elif revs % 2 == 0:
+                    R.violate("b", "levels-ascending", "execute_parallel walks the ordered salience map front to back (ascending)", ep)
+                    return
     if ok:
         R.hold("b", "salience levels are visited in descending order", fn=ep)
     else:
@@ -326,6 +342,19 @@ def _returns(P, R):
             normal_early = [e for e in exits if any(ob in par.reach(e[1]) for ob in okblocks)]
             if drv["kind"] == "iterator" and "handles" in it and not normal_early and not A.truncating_adapters(drv["iter_sym"]):
                 okj = True
+    if not okj:
+        # adapter form: handles.into_iter().try_for_each(|h| h.join().map_err(..))? - every handle, stopping only on a worker panic
+        for c in par.calls():
+            if c.bb in par.normal_blocks() and c.name.endswith(("::try_for_each", "::for_each")) and len(c.args) == 2 and "handles" in fmt_named(par.sym_operand(c.args[0]), 6) \
+                    and not A.truncating_adapters(par.sym_operand(c.args[0])):
+                for x in walk(par.sym_operand(c.args[1])):
+                    if x[0] == "agg" and str(x[1]).startswith("closure:") and x[1][len("closure:"):] in P.fns:
+                        cf = P.fns[x[1][len("closure:"):]]
+                        cj = [cc for cc in cf.calls() if "JoinHandle" in cc.name and cc.name.endswith("::join") and cc.bb in cf.normal_blocks()
+                              and any(y[0] == "param" and y[1] == 2 for y in walk(cf.sym_operand(cc.args[0])))]
+                        if cj and A.always_calls_before_return(cf, [cc.bb for cc in cj]):
+                            okj = True
+                            joins = joins + [c]
     # the results are read only after the join loop
     reads = [c for (c, m, n) in A.lock_sites(par) if _lock_class(n) == "results"]
     after = all(any(j.bb in par.reach_back([r.bb]) for j in joins) for r in reads) if reads and joins else False
